@@ -61,6 +61,8 @@ let init () =
       (from_data_d t22 t34 (z_of_string ver) depth (bool_of_string gu) (frame id) (z_of_string flags) (bytes_of_hex data)));
   register "c12_tag" (fun [ver; gu; data] ->
     res show_parsed (tag_read t22 t34 (z_of_string ver) (Datatypes.S depth) (bool_of_string gu) (bytes_of_hex data)));
+  register "c12_upgrade" (fun [id; vs] ->
+    res (function Some x -> show_loaded x | None -> "none") (upgrade_frame t34 (frame id) (values_of vs)));
   register "c12_peak" (fun [data] ->
     res (fun (p, rest) -> string_of_z p ^ " " ^ string_of_z (peak_wire p) ^ " " ^ hex_of_bytes rest) (vp_read (bytes_of_hex data)));
   register "c12_inflate" (fun [data] -> res hex_of_bytes (inflate_stored (bytes_of_hex data)));
